@@ -112,3 +112,71 @@ func forgedFrameOnConnection(c *Ctx, who string) {
 		c.Count(id, at > 0 || nfr > 1, "stream:forged-on-connection", "forged-on-connection:"+kind, fmt.Sprintf("forged-on-connection:at=%d/%d", at, nfr))
 	}
 }
+
+// forgedFrameVsModel: the same adversary, against the byte model of the connection's read path (HcModel/ConnRead.lean,
+// driver op `connread run`, the model `error_at_first_alteration` and `bytes_refine_frames` are theorems of): genuine frames
+// `<len>`, the inserted frame `<len>x` (does not authenticate) — also `0x`, the frame without data —, the sender's later
+// frames under the counters the SENDER used. The real hap.Connection is driven by c07Run; tokens are compared read by read.
+func forgedFrameVsModel(c *Ctx, who string) {
+	_, ctlKey := crRefKeys(c08Shared)
+	var cases []*c07Case
+	for i := 0; i < c.Pick(40, 400); i++ {
+		id := c.CaseID("forged-vs-model", i)
+		if c.Skip(id) {
+			continue
+		}
+		r := c.CaseRng("forged-vs-model", i)
+		nfr := 1 + r.Intn(4)
+		at := r.Intn(nfr + 1)
+		flen := []int{0, 0, 0, 1 + r.Intn(30)}[i%4]
+		nforged := 1 + (i/4)%2*2 // one, or three in a row
+		cs := &c07Case{ID: id, Kind: "forged-insert", BadAt: at, Bufs: []int{[]int{1, 7, 64, 512, 2048}[r.Intn(5)]}}
+		var stream []byte
+		ctr := uint64(0)
+		put := func(fr []byte, l int, bad bool) {
+			stream = append(stream, fr...)
+			cs.Frames = append(cs.Frames, c07Frame{Len: l, Bad: bad})
+			cs.Ends = append(cs.Ends, len(stream))
+		}
+		for k := 0; k <= nfr; k++ {
+			if k == at {
+				for j := 0; j < nforged; j++ {
+					put(append([]byte{byte(flen), 0}, randBytes(r, flen+16)...), flen, true)
+				}
+			}
+			if k == nfr {
+				break
+			}
+			m := randBytes(r, 1+r.Intn(60))
+			put(crSealFrame(ctlKey, ctr, m), len(m), k >= at) // behind the insertion nothing authenticates under the receiver's counter
+			ctr++
+			cs.Plain = append(cs.Plain, m...)
+		}
+		tot := 0
+		for _, f := range cs.Frames {
+			tot += f.Len
+			cs.PEnds = append(cs.PEnds, tot)
+		}
+		for off := 0; off < len(stream); {
+			n := len(stream) - off
+			if r.Intn(2) == 0 {
+				n = 1 + r.Intn(n)
+			}
+			cs.Script = append(cs.Script, c07Ev{Kind: 's', B: stream[off : off+n]})
+			off += n
+		}
+		cs.Script = append(cs.Script, c07Ev{Kind: 'c'})
+		cases = append(cases, cs)
+		c.Count(cs.line(), true, "stream:forged-vs-model", fmt.Sprintf("forged-vs-model:len=%d×%d", flen, nforged), fmt.Sprintf("forged-vs-model:at=%d/%d", at, nfr))
+	}
+	impl := make([]string, len(cases))
+	parallel(len(cases), func(i int) { impl[i] = c07Run(c, cases[i]) })
+	lines := make([]string, len(cases))
+	for i, cs := range cases {
+		lines[i] = cs.line()
+	}
+	model := c.Model(lines)
+	for i, cs := range cases {
+		c.Same("forged-vs-model", cs.ID, lines[i], model[i], impl[i])
+	}
+}
